@@ -9,7 +9,7 @@ from vp.engine import SubCheck
 
 PROPERTY = "C01"
 RULE = (
-    "(extended 4) large: masks with more than 2^15 (quick) / 2^16 (thorough) unmasked pixels: array / grid forms and the index lists. (extended 3) apply_mask on already-masked arrays / vector fields (slim- and native-stored) with second masks that unmask pixels the first one hid (all-false, rolled, inverted); values supplied in Fortran order and as non-contiguous views. (extended 2) the other routes to the two forms are covered too: no_mask constructors (native input, slim input + shape_native) followed by apply_mask, Grid2D.from_yx_1d/from_yx_2d, VectorYX2D.from_mask/no_mask/apply_mask and components, native_skip_mask at the unmasked positions, and the public utilities convert_array_2d_to_slim/native, convert_grid_2d_to_slim/native, index_2d_for_index_slim_from / index_slim_for_index_2d_from (and their round trip over every pixel) and the complex slim/native pair; index lists of masks derived from a mask whose lists were read (invert, copy + in-place edit). "
+    "(extended 5) the MASK supplied in other memory layouts / forms (Fortran order, transposed, stepped and negative-stride views, 0/1 integers): both forms of arrays / grids under it and its index lists. (extended 4) large: masks with more than 2^15 (quick) / 2^16 (thorough) unmasked pixels: array / grid forms and the index lists. (extended 3) apply_mask on already-masked arrays / vector fields (slim- and native-stored) with second masks that unmask pixels the first one hid (all-false, rolled, inverted); values supplied in Fortran order and as non-contiguous views. (extended 2) the other routes to the two forms are covered too: no_mask constructors (native input, slim input + shape_native) followed by apply_mask, Grid2D.from_yx_1d/from_yx_2d, VectorYX2D.from_mask/no_mask/apply_mask and components, native_skip_mask at the unmasked positions, and the public utilities convert_array_2d_to_slim/native, convert_grid_2d_to_slim/native, index_2d_for_index_slim_from / index_slim_for_index_2d_from (and their round trip over every pixel) and the complex slim/native pair; index lists of masks derived from a mask whose lists were read (invert, copy + in-place edit). "
     "(extended) every constructed object is also put through additive arithmetic (x+c, c-x) and the native / slim / round-trip forms of the derived object are checked: masked positions of the native form stay zero. "
     "enum2d: every boolean mask with >=1 unmasked pixel on every shape with H*W<=12 (quick) / <=16 "
     "(thorough) with values 1..H*W, checked for Array2D/Grid2D/VectorYX2D in both storage modes and "
@@ -32,7 +32,7 @@ def _aa():
     return aa
 
 
-def _check_2d(mask_l, vals_flat, ctx, kinds=("array", "grid", "vector"), grid_vals=None):
+def _check_2d(mask_l, vals_flat, ctx, kinds=("array", "grid", "vector"), grid_vals=None, mask_layouts=True):
     aa = _aa()
     m = np.asarray(mask_l, dtype=bool)
     h, w = m.shape
@@ -101,7 +101,7 @@ def _check_2d(mask_l, vals_flat, ctx, kinds=("array", "grid", "vector"), grid_va
                 ctx.equal(np.asarray(yv.slim), want_gslim + 1.5, "vector2d/derived/slim", tag + " (add).slim")
                 ctx.equal(np.asarray(yv.native), np.where(m[:, :, None], 0.0, g + 1.5), "vector2d/derived/native", tag + " (add).native")
 
-    _check_routes_and_utils(aa, m, mask, vals, ctx)
+    _check_routes_and_utils(aa, m, mask, vals, ctx, ctx_layouts=mask_layouts)
 
     # index lists published by the mask
     di = mask.derive_indexes
@@ -136,7 +136,7 @@ def _check_2d(mask_l, vals_flat, ctx, kinds=("array", "grid", "vector"), grid_va
     ctx.equal(np.asarray(mask.derive_indexes.unmasked_slim), np.flatnonzero(un), "indexes/derived-mask/parent-changed", "parent lists after deriving masks")
 
 
-def _check_routes_and_utils(aa, m, mask, vals, ctx):
+def _check_routes_and_utils(aa, m, mask, vals, ctx, ctx_layouts=True):
     """The other ways to the same two forms: the no-mask constructors followed by apply_mask, the (y,x) component
     constructors, native_skip_mask, and the public conversion / index utilities of util.array_2d and util.grid_2d
     (none of which the constructors above pass through)."""
@@ -177,6 +177,25 @@ def _check_routes_and_utils(aa, m, mask, vals, ctx):
             gr = aa.Grid2D(values=src, mask=mask, store_native=store_native)
             ctx.equal(np.asarray(gr.slim), want_gslim, "grid2d/layout/slim", "%s store_native=%s" % (lname, store_native))
             ctx.equal(np.asarray(gr.native), want_gnative, "grid2d/layout/native", "%s store_native=%s" % (lname, store_native))
+
+    # memory layout / input form of the MASK itself (Fortran order, transposed / stepped / negative-stride views, 0/1 ints)
+    for lname, msrc in (gens.mask_layouts(m) if (ctx_layouts or h * w <= 9) else []):
+        lmask = aa.Mask2D(mask=msrc, pixel_scales=1.0)
+        ctx.equal(np.array(lmask).astype(bool), m, "mask-layout/mask", lname)
+        for store_native in (False, True):
+            for given, src in (("native", vals.copy()), ("slim", want_slim.copy())):
+                a = aa.Array2D(values=src, mask=lmask, store_native=store_native)
+                tag = "%s mask, %s-in, store_native=%s" % (lname, given, store_native)
+                ctx.equal(np.asarray(a.slim), want_slim, "mask-layout/array2d/slim", tag)
+                ctx.equal(np.asarray(a.native), want_native, "mask-layout/array2d/native", tag)
+                ctx.equal(np.asarray(a.native.slim.native), want_native, "mask-layout/array2d/roundtrip", tag)
+            gr = aa.Grid2D(values=want_gslim.copy(), mask=lmask, store_native=store_native)
+            ctx.equal(np.asarray(gr.slim), want_gslim, "mask-layout/grid2d/slim", "%s store_native=%s" % (lname, store_native))
+            ctx.equal(np.asarray(gr.native), want_gnative, "mask-layout/grid2d/native", "%s store_native=%s" % (lname, store_native))
+        ldi = lmask.derive_indexes
+        ctx.equal(np.asarray(ldi.native_for_slim), np.argwhere(~m), "mask-layout/indexes/native_for_slim", lname)
+        ctx.equal(np.asarray(ldi.unmasked_slim), np.flatnonzero(~m), "mask-layout/indexes/unmasked_slim", lname)
+        ctx.equal(np.asarray(ldi.masked_slim), np.flatnonzero(m), "mask-layout/indexes/masked_slim", lname)
 
     # apply_mask on an array that is ALREADY masked (slim- and native-stored), with second masks that unmask pixels
     # the first one hid: the result lists the first array's native values (zero where it was masked) under the new mask
@@ -265,7 +284,7 @@ def body_enum2d(case, ctx):
     h, w, bits = case["h"], case["w"], case["bits"]
     mask_l = [[bool((bits >> (i * w + j)) & 1) for j in range(w)] for i in range(h)]
     vals = list(range(1, h * w + 1))
-    _check_2d(mask_l, vals, ctx)
+    _check_2d(mask_l, vals, ctx, mask_layouts=False)
 
 
 def cases_enum2d(tier):
